@@ -128,6 +128,11 @@ namespace xsimd
                 {
                     uint32_t xcr0;
 
+#ifdef XSIMD_VERIF_XGETBV
+                    XSIMD_VERIF_XGETBV(xcr0);
+                    return xcr0;
+#endif
+
 #if defined(_MSC_VER) && _MSC_VER >= 1400
 
                     xcr0 = (uint32_t)_xgetbv(0);
@@ -154,6 +159,10 @@ namespace xsimd
 
                 auto get_cpuid = [](int reg[4], int level, int count = 0) noexcept
                 {
+#ifdef XSIMD_VERIF_CPUID
+                    XSIMD_VERIF_CPUID(reg, level, count);
+                    return;
+#endif
 
 #if defined(_MSC_VER)
                     __cpuidex(reg, level, count);
@@ -256,6 +265,9 @@ namespace xsimd
 
     XSIMD_INLINE detail::supported_arch available_architectures() noexcept
     {
+#ifdef XSIMD_VERIF_NO_ARCH_CACHE
+        return detail::supported_arch();
+#endif
         static detail::supported_arch supported;
         return supported;
     }
